@@ -16,6 +16,9 @@ Verdict(e) ==
        IF e.hung # 0 THEN "hung" ELSE IF e.rc = 0 /\ e.got # e.want THEN "exit-zero-with-missing-records" ELSE "ok"
   ELSE IF e.op = "cmd" THEN           \* real binary writing to a failing output: exit status must be non zero
        IF e.hung # 0 THEN "hung" ELSE IF e.rc = 0 THEN "exit-zero-after-write-failure" ELSE "ok"
+  ELSE IF e.op = "transient" THEN     \* one Write refused once (EAGAIN), later ones accepted: no report => nothing lost
+       IF e.fatal # 0 THEN "ok" ELSE IF e.hung # 0 THEN "hung"
+       ELSE IF e.accepted # e.total THEN "silent-loss-after-transient-failure" ELSE "ok"
   ELSE IF e.hung # 0 THEN "hung"
   ELSE IF Faulted(e) /\ e.fatal = 0 THEN "silent-loss"
   ELSE IF ~Faulted(e) /\ e.fatal # 0 THEN "false-fatal"
